@@ -18,6 +18,6 @@ while [ $# -gt 0 ]; do
 done
 rc=0
 for id in $IDS; do
-  VERIF_REPLAY_DIR="$WT/.replays" VERIF_REPO="$WT" "$HERE/check" "$id" --no-evidence $EXTRA | grep -E "^(VIOLATION|KNOWN-FINDING|done|HARNESS|  clause)" 
+  VERIF_REPLAY_DIR="$WT/.replays" VERIF_REPO="$WT" "$HERE/check" "$id" --no-evidence $EXTRA 2>&1 | grep -v "^  detail=" | cut -c1-260
 done
 exit 0
